@@ -536,7 +536,8 @@ def schedulers(N, K):
         ("LinearLR", {"scheduler": _S + "LinearLR", "total_iters": N + 2}),
         ("ConstantLR", {"scheduler": _S + "ConstantLR", "total_iters": N + 2, "factor": 0.5}),
         ("PolynomialLR", {"scheduler": _S + "PolynomialLR", "total_iters": N + K + 3, "power": 2.0}),
-        ("OneCycleLR", {"scheduler": _S + "OneCycleLR", "max_lr": 0.2, "total_steps": N + K + 6}),
+        ("OneCycleLR", {"scheduler": _S + "OneCycleLR", "max_lr": 0.2, "total_steps": N + K + 6,
+                        "cycle_momentum": False}),
         ("CyclicLR", {"scheduler": _S + "CyclicLR", "base_lr": 0.01, "max_lr": 0.2, "step_size_up": 3,
                       "cycle_momentum": False}),
         ("CosineAnnealingWarmRestarts", {"scheduler": _S + "CosineAnnealingWarmRestarts", "T_0": 3}),
@@ -663,6 +664,9 @@ def diff_state(a, b, path, types, out):
         for k, v in da.items():
             if k in db:
                 comp = "[*]" if k[0] == "int" else (f".{k[1]}" if path else str(k[1]))
+                i = _item_id(v)
+                if i is not None and i in types:
+                    comp += f"[{types[i]}]"        # a child object's own dictionary
                 diff_state(v, db[k], path + comp, types, out)
             elif k[0] == "int" and ("str", str(k[1])) in db:
                 out.append(("int-key-to-str", path, f"key {k[1]!r} came back as {str(k[1])!r}"))
@@ -809,7 +813,11 @@ def evaluate(case, obs):
             what = (f"{case['name']}: after the restart {saved['cls']}.state_dict()['{path}'] is keyed by strings "
                     f"({detail}); the entries no longer belong to their parameters / epochs")
         else:
-            key = f"C17:state-not-restored:{saved['cls']}:{path}:{kind}"
+            # owner = the innermost object whose dictionary holds the entry
+            import re
+            m = list(re.finditer(r"\[([A-Za-z_][A-Za-z0-9_]*)\]", path))
+            owner, rest = (m[-1].group(1), path[m[-1].end():].lstrip(".")) if m else (saved["cls"], path)
+            key = f"C17:state-not-restored:{owner}:{rest or kind}"
             what = f"{case['name']}: {saved['cls']}.state_dict() differs after the restart at {path} ({kind}): {detail}"
         explained.append(key)
         v.append((key, what, rp))
@@ -1311,18 +1319,23 @@ def run(tier, seed, replay=None):
         """the property evaluated on the implementation's outputs, keys canonicalised"""
         found = {}
         unc_heads = {}
-        if state["reps"]:
-            reps = state["reps"][0]
-            for (X, h), fam in REPRO.items():
-                if X in reps and any(f.split(".")[0] == h for f in reps[X]["uncovered"]):
-                    unc_heads[fam] = (X, h)
+        for (X, h), fam in REPRO.items():
+            # without table reports (translator failure) the attribution falls back on the static list
+            if not state["reps"] or (X in state["reps"][0] and any(
+                    f.split(".")[0] == h for f in state["reps"][0][X]["uncovered"])):
+                unc_heads[fam] = (X, h)
         for c, (vs, notes) in zip(cases, evals):
             for key, what, rp in vs:
                 if key.startswith("C17:resumed-trajectory-differs:") and c["family"] in unc_heads:
-                    X, h = unc_heads[c["family"]]
-                    key = f"C17:state-not-saved:{X}:{h}"
-                    what = f"{X} mutates self.{h} while running but state_dict() does not save it — " + what
+                    continue        # named below after the attribute that is not saved
                 found.setdefault(key, (key, what, rp))
+            if c["family"] in unc_heads and notes.get("depart") is not None:
+                X, h = unc_heads[c["family"]]
+                key = f"C17:state-not-saved:{X}:{h}"
+                o = obs[cases.index(c)]
+                found.setdefault(key, (key, f"{X} mutates self.{h} while running but state_dict() does not save it — "
+                                            f"{c['name']}: the resumed run departs from the uninterrupted one at state "
+                                            f"number {notes['depart'] + 1} after the restart", dict(case=c)))
         return list(found.values())
 
     def search():
@@ -1362,7 +1375,8 @@ def run(tier, seed, replay=None):
     predicted = predicted_findings(info, *state["reps"]) if state["reps"] else []
     obs_keys = [k for k, _, _ in obs_f]
     for key, what in predicted:
-        if not any(k == key or (key.endswith("spec=") and k.startswith(key)) for k in obs_keys):
+        if not any(k == key or k == key.replace(".load_state_dict:", "._load_state_dict:")
+                   or (key.endswith("spec=") and k.startswith(key)) for k in obs_keys):
             rep.violation("C17:unreproduced:" + key, what + " — not reproduced by any driven configuration",
                           dict(predicted=key), False)
     if not proved and not predicted and not obs_f:
